@@ -352,6 +352,57 @@ func c33Faithful(p *an.Prog, r *an.R) {
 		work = append(work, b.Succs...)
 	}
 	r.Extra["C33.R4.success_returns_after_gate"] = n
+	c33PreviewKnowsPlan(p, r)
+	// the mirror image: what the preview answers at the gate. Real mode indexes on every path behind the gate
+	// (checked above), so the preview must answer updated == true on every path of its own side - a computed
+	// answer can say 'up to date' for a state that -f re-indexes.
+	previewSucc := gate.Block().Succs[1]
+	if previewWhenTrue {
+		previewSucc = gate.Block().Succs[0]
+	}
+	var isTrue func(v ssa.Value, d int) bool
+	isTrue = func(v ssa.Value, d int) bool {
+		switch x := v.(type) {
+		case *ssa.Const:
+			return x.Value != nil && x.Value.String() == "true"
+		case *ssa.Phi:
+			if d > 4 {
+				return false
+			}
+			for _, e := range x.Edges {
+				if !isTrue(e, d+1) {
+					return false
+				}
+			}
+			return true
+		}
+		return false
+	}
+	pseen := map[*ssa.BasicBlock]bool{}
+	work = []*ssa.BasicBlock{previewSucc}
+	np := 0
+	for len(work) > 0 {
+		b := work[len(work)-1]
+		work = work[:len(work)-1]
+		if pseen[b] || seen[b] { // blocks shared with the real side were judged above
+			continue
+		}
+		pseen[b] = true
+		for _, in := range b.Instrs {
+			ret, ok := in.(*ssa.Return)
+			if !ok || len(ret.Results) != 2 {
+				continue
+			}
+			if errC, isC := retOperand(ret, 1).(*ssa.Const); !isC || !errC.IsNil() {
+				continue
+			}
+			np++
+			r.Check(isTrue(retOperand(ret, 0), 0), "C33.R4", "gitindex.indexGitRepo/preview-return-at-DryRun-gate/updated==true", ret.Pos(), "the preview answers updated == true at the gate, on every path of its side",
+				"at the DryRun gate the preview can answer updated == false (a computed value) although -f indexes on every path behind the gate: 'Up to date' is announced for a state that -f re-indexes")
+		}
+		work = append(work, b.Succs...)
+	}
+	r.Floor("C33.R4.preview-returns-at-gate", 1, np)
 	// planning is mode independent
 	for _, spec := range []struct {
 		fn    string
@@ -456,4 +507,114 @@ func retOperand(ret *ssa.Return, i int) ssa.Value {
 		return last
 	}
 	return v
+}
+
+// c33PreviewKnowsPlan: R5. The preview leaves the shards it plans to remove on disk, so what it says about
+// indexing must take the plan into account: a repository whose (same-named) shard is pruned is indexed anew by -f.
+func c33PreviewKnowsPlan(p *an.Prog, r *an.R) {
+	r.Rule("C33.R5", "the indexing half of the preview knows the removal half: in runSync the call of indexRepositories receives a value computed from the result of planPrune (the shards that -f removes before indexing are still on disk during the preview; judged against them a moved repository is announced 'Up to date' and then indexed by -f)")
+	plan, idx := p.Func(lsync, "planPrune"), p.Func(lsync, "indexRepositories")
+	pk := p.Pkg(lsync)
+	if !r.Anchor(pk != nil && plan != nil && idx != nil, lsync+".planPrune/indexRepositories") {
+		return
+	}
+	// the function that calls indexRepositories: runSync, or the helper its planning was moved into
+	ncalls := 0
+	for _, sf := range p.SSAFuncs() {
+		if p.PkgOfSSA(sf) != pk {
+			continue
+		}
+		var planVals []ssa.Value
+		var calls []*ssa.Call
+		an.Instrs(sf, func(b *ssa.BasicBlock, in ssa.Instruction) {
+			if c, ok := in.(*ssa.Call); ok {
+				switch an.StaticCallee(c) {
+				case plan:
+					planVals = append(planVals, c)
+				case idx:
+					calls = append(calls, c)
+				}
+			}
+		})
+		if len(calls) == 0 {
+			continue
+		}
+		// a plan handed in by the caller counts as well
+		for _, prm := range sf.Params {
+			if strings.Contains(prm.Type().String(), "pruneAction") {
+				planVals = append(planVals, prm)
+			}
+		}
+		r.Fn(an.SSAName(sf))
+		for i, c := range calls {
+			ncalls++
+			dep := false
+			seen := map[ssa.Value]bool{}
+			for _, a := range c.Call.Args {
+				if c33DependsOn(a, planVals, seen) {
+					dep = true
+				}
+			}
+			r.Check(dep, "C33.R5", an.SSAName(sf)+"/indexRepositories-receives-the-prune-plan#"+fmt.Sprint(i+1), c.Pos(), "an argument of indexRepositories is computed from the prune plan",
+				"indexRepositories is called without anything derived from planPrune's result: in a dry run it judges every repository by the shards on disk, including those the same run would remove - a repository moved to another root under the same name is announced 'Up to date' although -f removes its shard and indexes it again")
+		}
+	}
+	r.Floor("C33.R5.calls-of-indexRepositories", 1, ncalls)
+}
+
+// c33DependsOn: is v computed from one of the targets? Follows operands backwards; for containers made in the
+// function (maps, slices, locals) also what is written into them.
+func c33DependsOn(v ssa.Value, targets []ssa.Value, seen map[ssa.Value]bool) bool {
+	if v == nil || seen[v] {
+		return false
+	}
+	seen[v] = true
+	for _, t := range targets {
+		if v == t {
+			return true
+		}
+	}
+	in, ok := v.(ssa.Instruction)
+	if !ok {
+		return false
+	}
+	if c, ok := v.(*ssa.Call); ok {
+		if b, ok := c.Call.Value.(*ssa.Builtin); ok && (b.Name() == "len" || b.Name() == "cap") {
+			return false // a size says nothing about which shards are planned
+		}
+	}
+	for _, op := range in.Operands(nil) {
+		if *op != nil && c33DependsOn(*op, targets, seen) {
+			return true
+		}
+	}
+	switch v.(type) {
+	case *ssa.MakeMap, *ssa.Alloc, *ssa.MakeSlice, *ssa.IndexAddr, *ssa.FieldAddr, *ssa.Slice:
+		if refs := v.Referrers(); refs != nil {
+			for _, ref := range *refs {
+				switch w := ref.(type) {
+				case *ssa.MapUpdate:
+					if w.Map == v && (c33DependsOn(w.Key, targets, seen) || c33DependsOn(w.Value, targets, seen)) {
+						return true
+					}
+				case *ssa.Store:
+					if w.Addr == v && c33DependsOn(w.Val, targets, seen) {
+						return true
+					}
+				case *ssa.IndexAddr, *ssa.FieldAddr, *ssa.Slice:
+					// a store through an element/field address writes into the container
+					if sub := w.(ssa.Value); !seen[sub] {
+						if srefs := sub.Referrers(); srefs != nil {
+							for _, sr := range *srefs {
+								if st, ok := sr.(*ssa.Store); ok && st.Addr == sub && c33DependsOn(st.Val, targets, seen) {
+									return true
+								}
+							}
+						}
+					}
+				}
+			}
+		}
+	}
+	return false
 }
